@@ -144,12 +144,9 @@ def release_bound(ctx, rule='C03.release-bound'):
             res.append(bad(rule, '%s | release bound ignores the reader registry' % bf.qual,
                            'the writer releases pending pages at %s with a bound that depends neither on the contents of the open-reader registry nor on a test of it: '
                            'pages of a snapshot an open reader still uses can be reused' % where, where=where))
-    # the release must happen while the registry guard is held (the bound must still be true when pages are released)
-    for bb, t, helper in sites:
-        held = li.held_must_at(bb)
-        if (REGISTRY_LOCK, 'X') not in held:
-            res.append(bad(rule, '%s | release outside the registry critical section' % bf.qual,
-                           'the release at %s happens without holding the reader registry lock (held: %s)' % (bf.loc(bb), held), where=bf.loc(bb)))
+    # (the release itself need not sit inside the registry critical section: a reader that registers after the bound was read pins the newest committed state, and
+    # nothing pending belongs to that state; what matters is that the bound is read under the registry lock -- it is, it comes through the guard -- and only after the
+    # writer owns the writer lock, which `writer-reads-after-lock` decides)
     return res
 
 
